@@ -279,6 +279,9 @@ def run_job(job):
     """job = {"case": case_spec, "n": runs, "seed": verif_seed, "tag": str, "first": idx}"""
     if job.get("kind") == "realproc":
         return realproc_job(job)
+    if job.get("kind") == "stubtest":
+        from . import c16
+        return c16.stubtest_job(job)
     agg = batch.Agg()
     cs = job["case"]
     t_job = batch.real_now()
@@ -451,6 +454,7 @@ def build_jobs(tier, seed):
         real.append({"case": c, "timeout": [-1, 10][j % 2], "ncpu": [5, 2][j % 2], "threshold": 1})
     for r in real:
         jobs.insert(0, dict(r, kind="realproc", seed=seed))
+    jobs.insert(0, {"kind": "stubtest", "seed": seed + 1, "n": 40 if tier == "quick" else 400})
     return jobs
 
 
